@@ -195,7 +195,8 @@ def gen(tier, rng):
     layouts = dm.real_layouts(rng)[:10]
     small_l = [dm.layout(z, dm.seq_block(s, 3), dm.seq_block(s + 1, 2, 1), dm.seq_block(s, 3, 9), dm.sparse_block([s, s + 2], 4))
                for z in (0, 1) for s in (0, 1, 2)]
-    for cfg in small_l + (layouts if tier != "quick" else layouts[:6]):
+    # (quick: the first six real-size layouts plus the ones that leave tables to the context's own default blocks)
+    for cfg in small_l + (layouts if tier != "quick" else layouts[:6] + [l for l in layouts if l.get("omit")][:3]):
         if any(b["kind"] == "seq" and b["size"] > 10000 for b in cfg["blocks"].values()):
             nops = 8
         else:
@@ -217,7 +218,13 @@ def gen(tier, rng):
                 else:
                     bits = fc in (1, 2, 5, 15)
                     ops.append({"op": "cset", "fc": fc, "a": a, "vals": [rng.randint(0, 1) if bits else rng.randint(0, 65535) for _ in range(n)]})
-            if rep == 0:
+            if rep == 0 and cfg.get("omit"):
+                # directed: tables left to the context's defaults are separate tables - a write to one is not seen through another
+                ops = [{"op": "cset", "fc": 15, "a": 5, "vals": [1, 1, 1]}, {"op": "cget", "fc": 2, "a": 5, "n": 3},
+                       {"op": "cset", "fc": 16, "a": 7, "vals": [9, 8]}, {"op": "cget", "fc": 4, "a": 7, "n": 2},
+                       {"op": "cget", "fc": 1, "a": 5, "n": 3}, {"op": "cget", "fc": 3, "a": 7, "n": 2},
+                       {"op": "cget", "fc": 3, "a": 5, "n": 3}, {"op": "cget", "fc": 1, "a": 7, "n": 2}] + ops[:6]
+            elif rep == 0:
                 # directed: a context-level reset in the middle, then every table probed at both ends of its block with either offset
                 ops = ops[:10] + [{"op": "creset"}]
                 for fc, t in ((1, "c"), (2, "d"), (3, "h"), (4, "i")):
